@@ -86,9 +86,10 @@ theorem added_required_flagged_partial (hna : NoAbort old new cs) (hc : c ∈ cs
   rw [(lookupModule_some hfrm).2] at hd
   exact run_reports hna hc hfrm hto hd
 
-/-- A field (same id) that was effectively optional and is effectively required is reported.
-PARTIAL: only when the run is not aborted (D30). -/
-theorem optional_to_required_flagged_partial (hna : NoAbort old new cs) (hc : c ∈ cs)
+/-- (`optional_to_required_flagged`; the name is abbreviated so that `#print axioms` output stays on
+one line for bin/check's parser.) A field (same id) that was effectively optional and is
+effectively required is reported. PARTIAL: only when the run is not aborted (D30). -/
+theorem opt_to_required_flagged_partial (hna : NoAbort old new cs) (hc : c ∈ cs)
     (hfrm : lookupModule old c.file = some frm) (hto : toModule new c = some to)
     {n : String} {s t : Struct} {f x : Field} (hn : n ∈ (o c.file).types)
     (hs : lookupStruct frm.structs n = some s) (ht : lookupStruct to.structs n = some t) (hwf : s.wf)
